@@ -143,3 +143,33 @@ Example step_spec_examples :
       [CAdd nc nb_ []; CRebase nb_ []; CRemove nb_ false; CRename na nc; CMkdirs nb_; CRebase na nb_; CInit]
   = [true; true; true; true; true; true; true].
 Proof. vm_compute. reflexivity. Qed.
+
+(* ---- mount is out of scope for a reason: an export line may name any absolute target, also
+   <layers>/z/layerconfig; mounting then creates a new "layer" z whose base does not exist *)
+Definition bdir (s : string) : bytes * node := (bs "/lc/layers/a/build/" ++ bs s, Dir).
+Definition fs_mnt : fsT :=
+  [(bs "/", Dir); (bs "/lc", Dir); (bs "/lc/layers", Dir); (bs "/lc/exports", Dir);
+   (bs "/lc/default_layerconfig.skel", File (bs "import proc proc /proc"));
+   (bs "/lc/layers/a", Dir);
+   (bs "/lc/layers/a/layerconfig", File (bs "export symlink etc/evil /lc/layers/z/layerconfig" ++ nlb));
+   (bs "/lc/layers/a/build", Dir); bdir "bin"; bdir "etc"; bdir "lib"; bdir "opt"; bdir "root"; bdir "sbin"; bdir "usr";
+   (bs "/lc/layers/a/build/etc/evil", File (bs "base nonexist" ++ nlb))].
+Definition w_mnt : wobs := MkWO fs_mnt ks0.
+Example forest_refuted_mount :
+  let v := view_of_model cfg0 w_mnt env_plain (CMount na) [] in
+  (cfg_ok cfg0 && fs_ok cfg0 fs_mnt && kernel_wf w_mnt && names_distinct cfg0 w_mnt && paths_distinct w_mnt
+   && C02.forest_ok cfg0 fs_mnt,
+   v_res v, C02.forest_ok cfg0 (wo_fs (v_after v)), C02.step_spec cfg0 w_mnt v)
+  = (true, ROk, false, false).
+Proof. vm_compute. reflexivity. Qed.
+Lemma forest_mount_refuted : exists cfg w e cmd um,
+  (cfg_ok cfg && fs_ok cfg (wo_fs w) && kernel_wf w && names_distinct cfg w && paths_distinct w
+   && C02.forest_ok cfg (wo_fs w)) = true /\
+  e_pretend e = false /\ e_fault e = NoFault /\
+  v_res (view_of_model cfg w e cmd um) = ROk /\
+  C02.forest_ok cfg (wo_fs (v_after (view_of_model cfg w e cmd um))) = false.
+Proof.
+  exists cfg0, w_mnt, env_plain, (CMount na), [].
+  split; [vm_compute; reflexivity|]. split; [reflexivity|]. split; [reflexivity|].
+  split; vm_compute; reflexivity.
+Qed.
